@@ -440,7 +440,12 @@ func (s *Server) blobUploadMount(repoSrcStr, repoTgtStr, digStr string, w http.R
 // blobClose completes an upload.
 // The repo is held meanwhile, a GC that is running on it is waited for by RepoGet, which returns when the request is cancelled.
 func (s *Server) blobClose(ctx context.Context, repoStr string, bc store.BlobCreator) error {
-	repo, err := s.store.RepoGet(ctx, repoStr)
+	st := s.store
+	if st == nil {
+		// the server was closed while the request was in progress
+		return fmt.Errorf("backend store is closed")
+	}
+	repo, err := st.RepoGet(ctx, repoStr)
 	if err != nil {
 		return err
 	}
